@@ -27,7 +27,10 @@ from hpstatic.logic import nnf
 from hpstatic.poly import Canon
 from hpstatic.terms import (sym, intern, show, subterms, calls_in, NONE, num, kw)
 from hpstatic.xrnorm import atom_rewrite
-from .common import SCATTERER, self_attr_stores
+from .common import SCATTERER, self_attr_stores, path_has, norm_cond, as_difference, is_sum
+from hpstatic.logic import cmp_is
+
+MUTATION_TARGETS = {'holopy/scattering/scatterer/scatterer.py': ['in_domain', 'index_at', 'contains', 'translated', '__init__'], 'holopy/scattering/scatterer/sphere.py': ['indicators', '__init__'], 'holopy/scattering/scatterer/ellipsoid.py': ['indicators'], 'holopy/scattering/scatterer/csg.py': ['in_domain', 'translated'], 'holopy/scattering/scatterer/spherecluster.py': ['overlaps', 'largest_overlap', '__init__', 'add'], 'holopy/core/math.py': ['cartesian_distance']}
 
 LEVEL = 'other'
 META = dict(
@@ -519,9 +522,8 @@ def constructors(check, prog):
                   'warn is set', loc, fail_detail='warning calls: %s' % [
                       [(show(t)[:60], p) for t, p in w['cond']] for w in warns])
     rs = [o for o in res.raises if 'InvalidScatterer' in show(o.value)]
-    ok = any(any(t[0] == 'un' and t[1] == 'not' and t[2][0] == 'call' and
-                 t[2][1] == 'isinstance' and 'Sphere' in show(t[2][2][1]) and pol
-                 for t, pol in o.cond) for o in rs)
+    ok = any(path_has(o.cond, lambda t: t[0] == 'call' and t[1] == 'isinstance' and
+                      'Sphere' in show(t[2][1]), pol=False) for o in rs)
     check.require(ok, 'K5-rejections', 'Spheres.__init__ members',
                   'a member that is not a Sphere raises InvalidScatterer', loc)
     q = SP + '.add'
